@@ -6,6 +6,7 @@
 #include <optional>
 #include <type_traits>
 #include <functional>
+#include <cstring>
 #include "bitserializer/export.h"
 #include "bitserializer/serialization_detail/archive_base.h"
 #include "bitserializer/serialization_detail/bin_timestamp.h"
@@ -92,6 +93,12 @@ public:
 				}
 			}
 			return false;
+		}
+		else if constexpr (std::is_floating_point_v<T>)
+		{
+			// Compare bitwise: a key must be equal to itself even when it is NaN
+			auto& ref = std::get<T>(mTuple);
+			return mLast == &ref && std::memcmp(&ref, &value, sizeof(T)) == 0;
 		}
 		else
 		{
@@ -836,33 +843,49 @@ private:
 		switch (mMsgPackReader->ReadValueType())
 		{
 		case ValueType::String:
-			if (auto& ref = mCurrentKey.GetValueRef<std::string_view>(); mMsgPackReader->ReadValue(ref)) {
-				callback(ref);
+			if (auto& ref = mCurrentKey.GetValueRef<std::string_view>(); mMsgPackReader->ReadValue(ref))
+			{
+				// Pass a copy: the key slot is overwritten when the callback searches for a value by this key
+				auto key = ref;
+				callback(key);
 			}
 			break;
 		case ValueType::UnsignedInteger:
-			if (auto& ref = mCurrentKey.GetValueRef<uint64_t>(); mMsgPackReader->ReadValue(ref)) {
-				callback(ref);
+			if (auto& ref = mCurrentKey.GetValueRef<uint64_t>(); mMsgPackReader->ReadValue(ref))
+			{
+				// Pass a copy: the key slot is overwritten when the callback searches for a value by this key
+				auto key = ref;
+				callback(key);
 			}
 			break;
 		case ValueType::SignedInteger:
-			if (auto& ref = mCurrentKey.GetValueRef<int64_t>(); mMsgPackReader->ReadValue(ref)) {
-				callback(ref);
+			if (auto& ref = mCurrentKey.GetValueRef<int64_t>(); mMsgPackReader->ReadValue(ref))
+			{
+				// Pass a copy: the key slot is overwritten when the callback searches for a value by this key
+				auto key = ref;
+				callback(key);
 			}
 			break;
 		case ValueType::Double:
-			if (auto& ref = mCurrentKey.GetValueRef<double>(); mMsgPackReader->ReadValue(ref)) {
-				callback(ref);
+			if (auto& ref = mCurrentKey.GetValueRef<double>(); mMsgPackReader->ReadValue(ref))
+			{
+				// Pass a copy: the key slot is overwritten when the callback searches for a value by this key
+				auto key = ref;
+				callback(key);
 			}
 			break;
 		case ValueType::Float:
-			if (auto& ref = mCurrentKey.GetValueRef<float>(); mMsgPackReader->ReadValue(ref)) {
-				return callback(ref);
+			if (auto& ref = mCurrentKey.GetValueRef<float>(); mMsgPackReader->ReadValue(ref))
+			{
+				auto key = ref;
+				return callback(key);
 			}
 			break;
 		case ValueType::Timestamp:
-			if (auto& ref = mCurrentKey.GetValueRef<CBinTimestamp>(); mMsgPackReader->ReadValue(ref)) {
-				return callback(ref);
+			if (auto& ref = mCurrentKey.GetValueRef<CBinTimestamp>(); mMsgPackReader->ReadValue(ref))
+			{
+				auto key = ref;
+				return callback(key);
 			}
 			break;
 		default:
